@@ -16,6 +16,8 @@ import GlmVerif.Props.C16.R_9
 import GlmVerif.Props.C16.R_10
 import GlmVerif.Props.C16.R_11
 import GlmVerif.Props.C16.R_12
+import GlmVerif.Props.C16.R_13
+import GlmVerif.Props.C16.R_14
 /-!
 # C16 — vector, matrix and quaternion storage layout matches the documented contract
 
@@ -40,7 +42,7 @@ open Glm Glm.Spec.C16 Glm.Gen.C16 Glm.Layout
 theorem rows_ok : rows.all Row.ok = true ∧ probeFailures = 0 := by
   refine ⟨?_, by decide⟩
   simp only [rows, List.all_append, Bool.and_eq_true]
-  exact ⟨⟨⟨⟨⟨⟨⟨⟨⟨⟨⟨⟨rows_0_ok, rows_1_ok⟩, rows_2_ok⟩, rows_3_ok⟩, rows_4_ok⟩, rows_5_ok⟩, rows_6_ok⟩, rows_7_ok⟩, rows_8_ok⟩, rows_9_ok⟩, rows_10_ok⟩, rows_11_ok⟩, rows_12_ok⟩
+  exact ⟨⟨⟨⟨⟨⟨⟨⟨⟨⟨⟨⟨⟨⟨rows_0_ok, rows_1_ok⟩, rows_2_ok⟩, rows_3_ok⟩, rows_4_ok⟩, rows_5_ok⟩, rows_6_ok⟩, rows_7_ok⟩, rows_8_ok⟩, rows_9_ok⟩, rows_10_ok⟩, rows_11_ok⟩, rows_12_ok⟩, rows_13_ok⟩, rows_14_ok⟩
 
 /-- the table is not empty and contains aligned rows, WXYZ rows and size_t rows -/
 theorem rows_nonvacuous : rows.length > 4000 ∧ (rows.any fun r => r.aligned && r.kind == 1) = true ∧
